@@ -91,6 +91,7 @@ func (f *frame) call(n *node, in *ssa.Call) bool {
 		return true
 	}
 	if callee := common.StaticCallee(); callee != nil {
+		f.atCallAssertions(n, in, callee, args)
 		var binds []Val
 		if mc, ok := common.Value.(*ssa.MakeClosure); ok {
 			for _, b := range mc.Bindings {
@@ -135,7 +136,7 @@ func (f *frame) invokeStatic(n *node, callee *ssa.Function, args []Val, binds []
 			return r, true
 		}
 	}
-	if x.w.Opaque[name] && x.w.isSpecFunc(callee) {
+	if x.w.Opaque[name] && (x.w.isSpecFunc(callee) || f.spec || x.inSpec()) {
 		if r, ok := f.opaqueCall(n, callee, args); ok {
 			return r, true
 		}
@@ -318,6 +319,13 @@ func (f *frame) applyContract(n *node, c *Contract, callee *ssa.Function, args [
 	defer func() { x.freshBase = x.freshBase[:len(x.freshBase)-1] }()
 	x.allocN += 32
 	res := x.havoc(resultType(callee.Signature), "ret."+callee.Name())
+	if x.w.Opaque[callee.Name()] {
+		// an opaque pure function: its result is the same uninterpreted application in code
+		// and in specifications
+		if r, ok := f.opaqueCall(n, callee, args); ok {
+			res = r
+		}
+	}
 	var results []Val
 	if len(res.Sub) > 0 {
 		results = res.Sub
@@ -325,6 +333,9 @@ func (f *frame) applyContract(n *node, c *Contract, callee *ssa.Function, args [
 		results = []Val{res}
 	}
 	for _, e := range c.Ensures {
+		if x.ctr != nil && x.ctr.LightCalls && strings.HasPrefix(e.Text, "forall ") {
+			continue // proof hint `light calls`: assuming less is always sound
+		}
 		t := x.evalClause(f, e, n.heap, pre, args, results, nil)
 		x.g.Assume(implies(n.reach, t))
 	}
@@ -498,6 +509,44 @@ func (f *frame) intrinsic(n *node, callee *ssa.Function, args []Val) (Val, bool)
 		}
 		inner := g.PopScope(body)
 		t := g.Fresh(SortBool, "(forall (("+bv+" "+cs[0].sort+")) "+inner+")")
+		return Val{T: types.Typ[types.Bool], C: []string{t}}, true
+	case name == "vcMapAllU64":
+		// vcMapAllU64(m, f): f holds for the value of every key present in m
+		m := args[0]
+		cl := args[1]
+		if cl.Fn == nil {
+			unsup("%s needs a function literal", name)
+		}
+		mt := callee.Params[0].Type()
+		mm := mt.Underlying().(*types.Map)
+		ks := x.mapKeySort(mm.Key())
+		h := f.heapFor(n, m)
+		base := mapHeapKey(mt)
+		dom := x.hget(h, base+".dom", SortBool, ks)
+		vc := x.comps(mm.Elem())
+		if len(vc) != 1 {
+			unsup("%s: map values must be scalars", name)
+		}
+		varr := x.hget(h, base+".val"+vc[0].suffix, vc[0].sort, ks)
+		kv := fmt.Sprintf("k!d%d", g.QuantDepth())
+		g.PushScope(kv)
+		sub := &frame{x: x, fn: cl.Fn, spec: true, paramVals: map[*ssa.Parameter]Val{}, freeVals: map[*ssa.FreeVar]Val{}}
+		sub.paramVals[cl.Fn.Params[0]] = Val{T: mm.Elem(), C: []string{g.Fresh(vc[0].sort, "(select (select "+varr+" "+m.C[0]+") "+kv+")")}}
+		for i, fv := range cl.Fn.FreeVars {
+			sub.freeVals[fv] = cl.Bind[i]
+		}
+		x.specDepth++
+		sub.run("true", n.heap.clone())
+		x.specDepth--
+		body := "true"
+		if len(sub.rets) > 0 {
+			body = sub.rets[len(sub.rets)-1].val.C[0]
+			for i := len(sub.rets) - 2; i >= 0; i-- {
+				body = ite(sub.rets[i].reach, sub.rets[i].val.C[0], body)
+			}
+		}
+		inner := g.PopScope(implies("(select (select "+dom+" "+m.C[0]+") "+kv+")", body))
+		t := g.Fresh(SortBool, "(forall (("+kv+" "+ks+")) "+inner+")")
 		return Val{T: types.Typ[types.Bool], C: []string{t}}, true
 	case name == "vcMod" || name == "vcModElems":
 		if x.modCollect == nil {
@@ -823,6 +872,15 @@ func (f *frame) opaqueCall(n *node, callee *ssa.Function, args []Val) (Val, bool
 				terms = append(terms, a.C[k])
 				sorts = append(sorts, c.sort)
 			}
+		case *types.Struct:
+			cs := x.comps(callee.Params[i].Type())
+			if len(cs) != len(a.C) {
+				unsup("opaque function %s: struct parameter shape", callee.Name())
+			}
+			for k, c := range cs {
+				terms = append(terms, a.C[k])
+				sorts = append(sorts, c.sort)
+			}
 		default:
 			unsup("opaque function %s: parameter of type %s", callee.Name(), callee.Params[i].Type())
 		}
@@ -837,4 +895,56 @@ func (f *frame) opaqueCall(n *node, callee *ssa.Function, args []Val) (Val, bool
 		}
 	}
 	return res, true
+}
+
+// atCallAssertions checks the `atcall` clauses of the function under verification before a
+// call of the named callee: the clause sees the function's own parameters (entry values)
+// and the call's receiver and arguments as a0, a1, ...
+func (f *frame) atCallAssertions(n *node, in *ssa.Call, callee *ssa.Function, args []Val) {
+	x := f.x
+	if x.ctr == nil || len(x.ctr.AtCalls) == 0 || f.spec || x.inSpec() || len(x.stack) != 1 {
+		return
+	}
+	id := funcID(callee)
+	for _, cl := range x.ctr.AtCalls {
+		if cl.Callee != id {
+			continue
+		}
+		fn := x.w.ClauseFn[cl.GoFunc]
+		if fn == nil {
+			unsup("clause function %s not found", cl.GoFunc)
+		}
+		var all []Val
+		all = append(all, f.args...)
+		all = append(all, args...)
+		for _, a := range f.args {
+			o := a
+			o.Old = true
+			all = append(all, o)
+		}
+		if len(all) != len(fn.Params) {
+			unsup("atcall %s: %d values for %d parameters", cl.GoFunc, len(all), len(fn.Params))
+		}
+		sub := &frame{x: x, fn: fn, args: all, spec: true, paramVals: map[*ssa.Parameter]Val{}, freeVals: map[*ssa.FreeVar]Val{}}
+		for i, p := range fn.Params {
+			sub.paramVals[p] = x.coerce(all[i], p.Type())
+		}
+		x.oldHeaps = append(x.oldHeaps, f.entryHeap)
+		x.specDepth++
+		x.stack = append(x.stack, fn)
+		sub.run("true", n.heap.clone())
+		x.stack = x.stack[:len(x.stack)-1]
+		x.specDepth--
+		x.oldHeaps = x.oldHeaps[:len(x.oldHeaps)-1]
+		if len(sub.rets) == 0 {
+			unsup("clause %s does not return", cl.GoFunc)
+		}
+		t := sub.rets[len(sub.rets)-1].val.C[0]
+		for i := len(sub.rets) - 2; i >= 0; i-- {
+			t = ite(sub.rets[i].reach, sub.rets[i].val.C[0], t)
+		}
+		t = x.g.Fresh(SortBool, t)
+		x.oblige("atcall", fmt.Sprintf("%s.%d", cl.Callee, cl.N), cl.Props, and(n.reach, not(t)), f.fn, in.Pos())
+		x.lastObl.Detail, x.lastObl.Clause, x.lastObl.Group = cl.Text, cl, fmt.Sprintf("atcall%d", cl.N)
+	}
 }
